@@ -26,11 +26,15 @@ Is(name) == HasNext /\ Ev.ev = name /\ Eat
 Same == UNCHANGED vars
 
 (* ---- the caller ---- *)
-TSchedCall == /\ Is("sched_call") /\ ~open /\ CallSchedWith(Ev.p, Ev.ph, Ev.block) /\ nadded' = Ev.id /\ open' = TRUE
+TSchedCall == /\ Is("sched_call") /\ ~open /\ CallSchedWith(Ev.p, Ev.ph, Ev.block, Ev.panic) /\ nadded' = Ev.id /\ open' = TRUE
 TRemoveCall == /\ Is("remove_call") /\ ~open /\ CallRemove(Ev.id) /\ open' = TRUE
 TEntriesCall == /\ Is("entries_call") /\ ~open /\ CallEntries /\ open' = TRUE
 TStopCall == /\ Is("stop_call") /\ ~open /\ CallStop /\ nstops' = Ev.k /\ open' = TRUE
 TStart == /\ Is("start") /\ ~open /\ CallStart /\ UNCHANGED open
+TRunCall == /\ Is("runcall") /\ ~open /\ CallRun /\ rx'.n = Ev.r /\ UNCHANGED open
+TRunRet == /\ Is("runret") /\ UNCHANGED open
+           /\ \/ RunReturn(Ev.r)
+              \/ RunNoopReturn /\ Ev.r \in rx.noop /\ Ev.r \notin rx'.noop
 (* a return: either the model's Ret (the call went through the scheduler) or, for a call that was served directly *)
 (* because the Cron was not running, the second half of the step already taken                                     *)
 RetOp == CASE Ev.ev = "sched_ret" -> "sched" [] Ev.ev = "remove_ret" -> "remove"
@@ -73,7 +77,7 @@ TJobEnd == /\ Is("jobend") /\ (\E j \in 1..Len(jobs) : jobs[j].id = Ev.id /\ JEn
 TJobSkip == /\ Is("jobskip") /\ (\E j \in 1..Len(jobs) : jobs[j].id = Ev.id /\ JSkip(j)) /\ UNCHANGED open
 TCtxDone == /\ Is("stopctx_done") /\ WDone(Ev.k) /\ UNCHANGED open
 TQuiescent == /\ Is("quiescent") /\ ~open /\ Quiesce /\ UNCHANGED open
-TIgnore == /\ HasNext /\ Ev.ev \in {"nx", "job.block", "stuck"} /\ Eat /\ Same /\ UNCHANGED open
+TIgnore == /\ HasNext /\ Ev.ev \in {"nx", "job.block", "stuck", "cron.log.stop"} /\ Eat /\ Same /\ UNCHANGED open
 
 (* ---- silent: no event marks these ---- *)
 Silent == /\ HasNext /\ UNCHANGED <<tr, l, open>>
@@ -82,7 +86,7 @@ Silent == /\ HasNext /\ UNCHANGED <<tr, l, open>>
              \/ SelAdd \/ SelRemove \/ SelStop  \* the other caller arms (reported by their log lines, see above)
              \/ Unblock                         \* the driver let a blocked job go
 
-TNext == TSchedCall \/ TRemoveCall \/ TEntriesCall \/ TStopCall \/ TStart \/ TRet \/ TAdv
+TNext == TSchedCall \/ TRemoveCall \/ TEntriesCall \/ TStopCall \/ TStart \/ TRunCall \/ TRunRet \/ TRet \/ TAdv
          \/ TLogStart \/ TLogSchedule \/ TArmed \/ TWoke \/ TLogWake \/ TRun \/ TLogAdded \/ TLogRemoved \/ TLogStop
          \/ TJobGate \/ TJobStart \/ TJobEnd \/ TJobSkip \/ TCtxDone \/ TQuiescent \/ TIgnore \/ Silent
 TSpec == TInit /\ [][TNext]_tvars
